@@ -1,0 +1,11 @@
+//go:build verif
+// +build verif
+
+// Contracts for package packages (C19), read by /verif/engine (govc). Comment-only file: it adds no code.
+// Every table entry must be bound to the Go object whose name is its key (checked against go/types); the
+// entries below are the declared exceptions.
+
+package packages
+
+//@ table_exception sort.SortFuncsStruct helper type declared in this package (adapter for sort.Interface), not a member of package sort
+//@ table_exception os.Signal the interface type os.Signal, obtained as reflect.TypeOf(&signal).Elem() from a local variable of that type
